@@ -281,11 +281,11 @@ CliOps == {"RemoveGapSites", "RemoveCharacterSites", "RemoveMajorityCharacterSit
            "ShuffleSequences", "Swap", "Recombine", "Mutate", "AddGaps", "Sample", "SampleSeqBag", "RandSubAlign",
            "Rename", "RenameRegexp", "CleanNames", "TrimNames", "TrimNamesAuto", "AppendSeqIdentifier", "TrimSequences",
            "Unalign", "Transpose", "RefCoordinates", "Split", "SelectSites", "RefSites", "InversePositions", "CodonAlign", "InverseCoordinates",
-           "Concat", "Append", "ToUpper", "ToLower", "ShuffleSites", "SimulateRogue", "BuildBootstrap", "Extract"} \cup CliQueryOps
+           "Concat", "Append", "ToUpper", "ToLower", "ShuffleSites", "SimulateRogue", "BuildBootstrap", "Extract", "Rarefy"} \cup CliQueryOps
 \* relations that need the part of the return record the command writes to a side file
 CliNeedsRet == {"Compress", "CleanNames", "TrimNames", "TrimNamesAuto", "ShuffleSites", "SimulateRogue"}
 
-CliCreators == {"Consensus", "SubAlign", "Sample", "SampleSeqBag", "RandSubAlign", "Unalign", "Transpose", "CodonAlign", "BuildBootstrap", "Extract"}      \* the command prints the object the operation creates, not the receiver
+CliCreators == {"Consensus", "SubAlign", "Sample", "SampleSeqBag", "RandSubAlign", "Unalign", "Transpose", "CodonAlign", "BuildBootstrap", "Extract", "Rarefy"}      \* the command prints the object the operation creates, not the receiver
 
 \* the clauses of the properties that a return value meets only in case-folded form
 FoldedOK(op, a, exp, obs) ==
